@@ -1,11 +1,12 @@
 """C04: role:X passes exactly when the credentials hold role X, ignoring case."""
 from common import S, enc_jv, run_batch, unS
+from common import corr_kind
 from world import base_case, run_cases, describe, out_of_model, agree
 
 GEN = ['GChecks.v', 'GUnicode.v', 'GParser.v']
 
 ALPHABET = 'aAbBzZ019-_.:/@+éÉñÑüÜαΑβΒωΩдДяЯ'
-KEYS = ['k', 'key2', 'a.b']
+KEYS = ['k', 'key2', 'a.b', 'auth_token', 'x_password', 'target.secret.owner']
 
 
 def rand_name(rng, lo=1, hi=6):
@@ -101,7 +102,7 @@ def run(run, binfo):
         if not wf:
             run.count('ill_formed_template_skipped')
             continue
-        cases.append(base_case(rules={'r': [['role:' + text]]}, target=t, creds=c))
+        cases.append(base_case(rules={'r': [['role:' + text]]}, target=t, creds=c, debug=(len(cases) % 3 == 0)))
         wants.append(want)
         # through the text language as well when the leaf can be written there
         if not any(ch.isspace() for ch in text) and text and not text.endswith(')') \
@@ -132,7 +133,7 @@ def run(run, binfo):
     if bad_corr and not run.violations:
         c, m, i = bad_corr[0]
         run.violation('correspondence:S3', 'model and implementation disagree on a role check',
-                      {'kind': 'broken-obligation', 'obligation': 'correspondence suite S3 (role check)',
+                      {'kind': corr_kind(m), 'oracle': 'the Coq model, for which the property is proved', 'obligation': 'correspondence suite S3 (role check)',
                        'input': describe(c), 'model': m, 'observed': i, 'count': len(bad_corr)})
     run.rule = ('%d generated (template, target, credentials) triples over the alphabet %r (literal, placeholder and mixed '
                 'forms; targets with/without the key; credentials without roles, with [], with case variants / prefixes / '
